@@ -115,7 +115,7 @@ operator-(const Time& x, const Time& y) {
 inline bool
 operator==(const Time& x, const Time& y) {
   assert(x.OK() && y.OK());
-  return x.seconds() == y.seconds() && y.microseconds() == y.microseconds();
+  return x.seconds() == y.seconds() && x.microseconds() == y.microseconds();
 }
 
 inline bool
